@@ -11,6 +11,7 @@ import (
 	"verif/internal/ref"
 	"verif/internal/run"
 	"verif/internal/spec"
+	"verif/internal/vproto"
 )
 
 func init() { checks["C05"] = c05 }
@@ -235,7 +236,7 @@ func c05Shapes(c *chk.Ctx, rng interface{ Intn(int) int }) []*spec.Spec {
 func c05(args []string) {
 	c := chk.New("C05", "exploration", args)
 	c.Build(false)
-	c.Rule("generated non-streaming graphs (C04 generator incl. processes without out-ports, slow leaves) plus directed shapes for the driver logic (independent leaves, out-port-less process beside sink-terminated branches, RunTo on an out-port-less target, issue-#81 diamond with more tasks than buffer slots), plus close storms: command-free fan-ins of 2-8 one-file sources into one in-port, built and run 1500-3000 times inside one child process so that the upstreams close their connections at the same moment thousands of times (Run must return each time, every item must pass); oracle = the subject's own snapshot at the instant Run returns (listing, live children, monotonic stamp) vs. trace and reference, plus structural hang classification; further directed shapes: a dependent globber behind several slow tasks, RunTo / RunToProcs where a parameter source or a file source feeds one process inside and one outside the run set with more items than buffer slots. distinct_nontrivial = distinct (graph shape, configuration, interleaving signature) of returned runs with >= 2 tasks")
+	c.Rule("generated non-streaming graphs (C04 generator incl. processes without out-ports, slow leaves; in every third run all commands print 300 kB to stdout/stderr) plus directed shapes for the driver logic (independent leaves, out-port-less process beside sink-terminated branches, RunTo on an out-port-less target, issue-#81 diamond with more tasks than buffer slots), plus close storms: command-free fan-ins of 2-8 one-file sources into one in-port, built and run 1500-3000 times inside one child process so that the upstreams close their connections at the same moment thousands of times (Run must return each time, every item must pass); oracle = the subject's own snapshot at the instant Run returns (listing, live children, monotonic stamp) vs. trace and reference, plus structural hang classification; further directed shapes: a dependent globber behind several slow tasks, RunTo / RunToProcs where a parameter source or a file source feeds one process inside and one outside the run set with more items than buffer slots. distinct_nontrivial = distinct (graph shape, configuration, interleaving signature) of returned runs with >= 2 tasks")
 	c.Assume("SCIPIPE_BUFSIZE >= 1", "two processes without out-ports are refused by the library up front; that refusal (exit != 0, no command executed) is accepted", "hang verdicts only from the structural classifier (Go runtime deadlock report or all goroutines blocked), never from elapsed time")
 	rng := c.Rand("c05")
 	type job struct {
@@ -282,7 +283,17 @@ func c05(args []string) {
 		j := jobs[i]
 		root := c.CaseDir()
 		defer c.Drop(root)
-		res := execSpec(c, root, j.s, j.cfg, nil, false, 0)
+		var bh vproto.Behaviours
+		if i%3 == 2 {
+			// verbose tools: every command prints 300 kB of progress lines (more than a pipe holds) before it works
+			bh = vproto.Behaviours{}
+			for _, p := range j.s.Procs {
+				if p.Kind == spec.KCmd {
+					bh[p.Name] = map[string]string{"chatter": "300000"}
+				}
+			}
+		}
+		res := execSpec(c, root, j.s, j.cfg, bh, false, 0)
 		leaves := leafProcs(j.s)
 		nLeafInRun := 0
 		for _, l := range leaves {
